@@ -10,17 +10,25 @@
                        (C18_sound_full_holds): per declared model the instances (one per statement, in
                        order, definition, kind, .cname/.attr/.param/truth table), the connectivity (two
                        pins share a wire exactly when the file attaches them to the same net bit or to
-                       two net bits joined by a .conn; bus bits x[3], unconn, constants as plain names -
-                       exactly as the reader treats them), the library, the port directions; undeclared
-                       definitions are leaf primitives.  Outside the supported subset the statement is
-                       refuted (C18_sound_refuted_*: statement lines the reader silently skips; a .conn
-                       operand that spells the cable name a_i_b_j an earlier .conn created);
+                       net bits joined by .conn statements - any number of them, in any order relative
+                       to the statements that use the nets, through any chain; bus bits x[3], unconn,
+                       constants as plain names - exactly as the reader treats them), the library, the
+                       port directions; undeclared definitions are leaf primitives.  Outside the
+                       supported subset the statement is refuted (C18_sound_refuted_*: statement lines
+                       the reader silently skips).
+                       Since the repair of merge_wires (.conn a b lets wire a take the pins of wire b and
+                       remembers that b stands for a, instead of inventing a cable a_i_b_j and throwing
+                       both wires away) [supported] asks nothing of .conn any more: the conditions
+                       conn_fresh (no operand spells an invented cable name), conns_last (every .conn
+                       after the statements naming nets) and "no cable in two .conn" are gone, and the
+                       former witnesses read faithfully (C18_conn_capture_repaired, C18_conn_chain_reads);
      write-then-read   C18_full is the statement; REFUTED at full generality (C18_roundtrip_refuted: the
                        written file of a supported document is rejected on re-reading).
                        [roundtrippable] (BlifSpec) is the decidable side condition excluding the classes
                        of netlist on which it fails, each with its witness (theorems C18_roundtrip_excluded_...):
                        default names of the re-read colliding with written .cname, .conn moving a
-                       top-level pin off the net named like its port, a primitive top model; definitions
+                       top-level pin off the net named like its port, a primitive top model (.conn on a
+                       bit of a bus is no longer among them: C18_roundtrip_conn_bus); definitions
                        instantiating themselves are excluded too (the composer does not terminate).
                        On that fragment the statement is C18_roundtrip_on_fragment: NOT proved in
                        general.  Proved: the boolean comparison decides the equivalence of the property
@@ -90,7 +98,8 @@ Print Assumptions C18_sound_full_holds.
 
 (* the connectivity clause spelled out: in a declared model without .blackbox, two pin designators are
    on one wire of the netlist iff the statements of the section attach them to the same net bit, or
-   to two net bits named together by a .conn *)
+   to two net bits that the .conn statements of the section join ([same_bit]: the equivalence they
+   generate - reflexive, symmetric, transitive) *)
 Theorem C18_sound_nets : forall d n,
   supported d = true -> elab d = Ok n ->
   exists ss, grammar d = Some ss /\
@@ -124,10 +133,40 @@ Theorem C18_sound_refuted_header_gap : exists d n, supported d = false /\ elab d
 Proof. exact sound_refuted_header_gap. Qed.
 Print Assumptions C18_sound_refuted_header_gap.
 
-(* a .conn operand spelling the cable name an earlier .conn gave the merged net captures that net *)
-Theorem C18_sound_refuted_conn_capture : exists d n, supported d = false /\ elab d = Ok n /\ ~ denote d n.
-Proof. exact sound_refuted_conn_capture. Qed.
-Print Assumptions C18_sound_refuted_conn_capture.
+(* REPAIRED (was C18_sound_refuted_conn_capture: a .conn operand spelling the cable name a_0_b_0 that an
+   earlier ".conn a b" gave the merged net captured that net).  The witness ".conn a b / .conn a_0_b_0 c" is
+   a supported document now and is read as it stands: the port pins a and b share a wire, c sits with
+   neither of them, and the model has the five cables the file names (a, b, c, y, a_0_b_0), none invented *)
+Example C18_conn_capture_repaired :
+  supported doc_conn_capture = true /\
+  exists n m, elab doc_conn_capture = Ok n /\ find_model nm_top (b_models n) = Some m /\
+    same_wire m pin_a pin_b /\ ~ same_wire m pin_a pin_c /\ ~ same_wire m pin_b pin_c /\
+    length (m_cables m) = 5.
+Proof. exact conn_capture_repaired. Qed.
+Print Assumptions C18_conn_capture_repaired.
+
+(* ... and, being supported, it falls under C18_sound_full_holds: the netlist is what the file denotes *)
+Example C18_conn_capture_faithful :
+  supported doc_conn_capture = true /\ exists n, elab doc_conn_capture = Ok n /\ denote doc_conn_capture n.
+Proof. exact conn_capture_faithful. Qed.
+Print Assumptions C18_conn_capture_faithful.
+
+(* REPAIRED by the same change (were the open findings conn-before-use and conn-same-net-twice, both excluded
+   from [supported] by conns_last / "no cable in two .conn"): ".conn a b" ahead of the statement that uses
+   net b, then ".conn b c", then ".conn c a" between two names of what is one net already.  The document is
+   supported; the pins a, b, c and the instance pin attached to b share one wire, d has its own, and the
+   model has the five cables the file names *)
+Example C18_conn_chain_reads :
+  supported doc_conn_chain = true /\
+  exists n m, elab doc_conn_chain = Ok n /\ find_model nm_top (b_models n) = Some m /\
+    same_wire m pin_a pin_c /\ same_wire m pin_b pin_i0 /\ ~ same_wire m pin_a pin_d /\ length (m_cables m) = 5.
+Proof. exact conn_chain_reads. Qed.
+Print Assumptions C18_conn_chain_reads.
+
+Example C18_conn_chain_faithful :
+  supported doc_conn_chain = true /\ exists n, elab doc_conn_chain = Ok n /\ denote doc_conn_chain n.
+Proof. exact conn_chain_faithful. Qed.
+Print Assumptions C18_conn_chain_faithful.
 
 (* ---- write-then-read ---- *)
 Definition C18_full : Prop := C18_roundtrip_statement.
@@ -182,10 +221,14 @@ Theorem C18_roundtrip_excluded_default_names :
 Proof. exact rt_excluded_default_names. Qed.
 Print Assumptions C18_roundtrip_excluded_default_names.
 
-Theorem C18_roundtrip_excluded_conn_bus :
-  exists n, elab doc_conn_bus = Ok n /\ roundtrippable n = false /\ ~ exists n', elab (emit n) = Ok n'.
-Proof. exact rt_excluded_conn_bus. Qed.
-Print Assumptions C18_roundtrip_excluded_conn_bus.
+(* REPAIRED (was C18_roundtrip_excluded_conn_bus: .conn on a bit of a bus removed that wire, the later wires
+   moved down and the written file was rejected).  Wires keep their positions now: the document is inside
+   the fragment and round-trips *)
+Example C18_roundtrip_conn_bus :
+  exists n n', elab doc_conn_bus = Ok n /\ roundtrippable n = true /\ elab (emit n) = Ok n' /\ equiv n n' /\ equiv_ports n n' /\
+    equiv_pins n n'.
+Proof. exact roundtrip_conn_bus. Qed.
+Print Assumptions C18_roundtrip_conn_bus.
 
 Theorem C18_roundtrip_excluded_conn_port_net :
   exists n n', elab doc_conn_port_net = Ok n /\ roundtrippable n = false /\ elab (emit n) = Ok n' /\ ~ equiv n n'.
